@@ -276,6 +276,12 @@ func buildC04(tier string) *core.Plan {
 				map[string]any{"top": n, "a": map[string]any{"x": m, "b": map[string]any{"y": 1}}, "l": []any{map[string]any{"k": n}, map[string]any{"k": m}}}},
 			tmpl{"yaml-crlf-line-ends", "yaml", fmt.Sprintf("a: %s\r\nb: x\r\nl:\r\n  - 1\r\n  - y\r\n", ns),
 				map[string]any{"a": n, "b": "x", "l": []any{1, "y"}}},
+			tmpl{"yaml-block-scalar-last", "yaml", fmt.Sprintf("k: %s\ns: |\n  x\n  y\n", ns),
+				map[string]any{"k": n, "s": "x\ny\n"}},
+			tmpl{"yaml-block-scalar-keep-last", "yaml", fmt.Sprintf("k: %s\ns: |+\n  x\n\n\n", ns),
+				map[string]any{"k": n, "s": "x\n\n\n"}},
+			tmpl{"yaml-quoted-merge-key-is-data", "yaml", fmt.Sprintf("\"<<\": {k: %s}\na: 2\nb: {'<<': 1}\n", ns),
+				map[string]any{"<<": map[string]any{"k": n}, "a": 2, "b": map[string]any{"<<": 1}}},
 			tmpl{"yaml-crlf-stream", "yaml", fmt.Sprintf("a: %s\r\n---\r\nb: %s\r\n---\r\nc: x\r\n", ns, ms),
 				[]any{map[string]any{"a": n}, map[string]any{"b": m}, map[string]any{"c": "x"}}},
 			tmpl{"yaml-separator-with-trailing-blanks", "yaml", fmt.Sprintf("a: %s\n---  \nb: %s\n---\t\nc: x\n", ns, ms),
